@@ -5,6 +5,15 @@ from n0v import coqlit as L
 from n0v.core import Prop
 from props import xpath_common as X
 from props.c02 import gen_value
+from props import c03 as C3
+
+
+def _exists(t, path):
+    try:
+        X.plain_get(t, path)
+        return True
+    except (KeyError, IndexError, TypeError):
+        return False
 
 
 class C05(Prop):
@@ -44,6 +53,33 @@ class C05(Prop):
                     ops.append(["set", X.render(cur, path, rng), v])
                     metas.append({"path": list(path)})
                     cur = X.ref_set(cur, path, v)
+                elif k < 0.86:
+                    # a C03 creation in between: name[new()] on an existing non-list entry (wraps it into a list
+                    # [old, v]) or a missing chain below an existing container; later deletes then run through
+                    # the containers the creation produced
+                    allnodes = [((), cur)] + nodes
+                    if rng.random() < 0.5:
+                        cands = [(p, x) for p, x in nodes if isinstance(p[-1], str) and not isinstance(x, list)]
+                        if not cands:
+                            continue
+                        path, x = rng.choice(cands)
+                        v = gen_value(rng)
+                        ops.append(["set", X.render(cur, path, rng, style=0) + "[new()]", v])
+                        metas.append({"path": list(path), "refval": [copy.deepcopy(x), copy.deepcopy(v)]})
+                        cur = X.ref_set(cur, path, [copy.deepcopy(x), copy.deepcopy(v)])
+                    else:
+                        conts = [(p, x) for p, x in allnodes if isinstance(x, (dict, list))]
+                        path, x = rng.choice(conts)
+                        steps = C3.C03.gen_steps(None, rng, x)
+                        v = gen_value(rng)
+                        ref2 = C3.ref_create(cur, path, steps, v)
+                        if ref2 is None or C3.list_step_below_new_element(steps):
+                            continue
+                        base = X.render(cur, path, rng, style=0) if path else ""
+                        xp = base + C3.render_suffix(steps, len(x) if isinstance(x, list) else 0)
+                        ops.append(["set", xp, v])
+                        metas.append({"create": {"pos": list(path), "steps": steps}})
+                        cur = ref2
                 elif k < 0.9:
                     nm = rng.choice(["n1", "n2", "n3"])
                     if nm in cur:
@@ -76,6 +112,41 @@ class C05(Prop):
                         break
             if ops:
                 out.append({"stream": "ops", "tag": "hist:%d" % len(ops), "input": {"tree": t, "mode": mode, "ops": ops, "metas": metas}})
+        # delete / pop through a container that an earlier write of the same history produced: an existing dict entry
+        # wrapped by name[new()] (it becomes element 0 of a new list), or a plain (unconverted) container assigned as a value
+        for _ in range(80 if tier == "quick" else 2000):
+            t = X.gen_tree(rng, rng.choice([2, 3]), root="dict")
+            mode = rng.choice(["wrap", "wrap", "convert", "json"])
+            cands = [(p, x) for p, x in X.node_paths(t) if isinstance(p[-1], str) and isinstance(x, dict) and x]
+            if not cands:
+                continue
+            path, x = rng.choice(cands)
+            cur = copy.deepcopy(t)
+            ops, metas = [], []
+            if rng.random() < 0.6:
+                v = gen_value(rng)
+                ops.append(["set", X.render(cur, path, rng, style=0) + "[new()]", v])
+                metas.append({"path": list(path), "refval": [copy.deepcopy(x), copy.deepcopy(v)]})
+                cur = X.ref_set(cur, path, [copy.deepcopy(x), copy.deepcopy(v)])
+                below = [p for p, _v in X.node_paths(cur) if len(p) > len(path) + 1 and list(p[:len(path) + 1]) == list(path) + [0]]
+            else:
+                v = copy.deepcopy(x)
+                ops.append(["set", X.render(cur, path, rng, style=0), v, "plain"])
+                metas.append({"path": list(path)})
+                below = [p for p, _v in X.node_paths(cur) if len(p) > len(path) and list(p[:len(path)]) == list(path)]
+            if not below:
+                continue
+            for _ in range(rng.randint(1, 2)):
+                below = [p for p in below if _exists(cur, p)]
+                if not below:
+                    break
+                p = rng.choice(below)
+                rc = rng.random() < 0.4
+                kind = rng.choice(["del", "pop"])
+                ops.append([kind, X.render(cur, p, rng), rc] + (["D"] if kind == "pop" else []))
+                metas.append({"path": list(p)})
+                cur = X.ref_del(cur, p, rc)
+            out.append({"stream": "ops", "tag": "through-created:%d" % len(ops), "input": {"tree": t, "mode": mode, "ops": ops, "metas": metas}})
         self._exh = None
         if tier == "thorough":
             n_trees = n_cases = 0
@@ -121,7 +192,12 @@ class C05(Prop):
                 if fail is None and (not (isinstance(r, str) and r == X.DFLT) or not X.same(X.plain(obj), before)):
                     fail = "pop(%r) of a missing path returned %r / changed the tree" % (op[1], r)
                 continue
-            ref = X.ref_set(ref, m["path"], op[2]) if op[0] == "set" else X.ref_del(ref, m["path"], bool(op[2]))
+            if "create" in m:
+                ref = C3.ref_create(ref, m["create"]["pos"], m["create"]["steps"], op[2])
+            elif op[0] == "set":
+                ref = X.ref_set(ref, m["path"], m.get("refval", op[2]))
+            else:
+                ref = X.ref_del(ref, m["path"], bool(op[2]))
             if fail is None:
                 if not X.same(X.plain(obj), ref):
                     fail = "after %s(%r%s) the tree is %r, expected %r" % (op[0], op[1], ", recursively" if op[0] != "set" and op[2] else "", X.plain(obj), ref)
